@@ -177,9 +177,60 @@ func runEngine1(o opts) int {
 	}
 	fmt.Printf("vcheck %s tier=%s seed=%d cases=%d workers=%d (instrumented build %.1fs; %d map sites in tree, %d in runtime; world calls %v)\n",
 		o.prop, o.tier, o.seed, spec.cases, o.workers, s.BuildS, len(s.RepoRep.MapSites), len(s.HelpersRep.MapSites), s.RepoRep.WorldCalls)
+	os.Setenv("VERIFSIM_REPO", s.Pristine)
 	m := runWorkers(s, o, spec.cases, spec.maxS)
+	if o.prop == "C19" {
+		gen2(o, s, m, spec)
+	}
 	code := report(o, s, m, t0)
 	return code
+}
+
+// gen2 is the second generation of C19: the regenerated file replaces the checked-in one in
+// the scratch copy, the tool is rebuilt, and under every schedule its output must equal
+// generation 1 again.
+func gen2(o opts, s *prep.Scratch, m *merged, spec tierSpec) {
+	for _, v := range m.violations {
+		if v.Property == "C19" && v.Sig != "failed-regenerate-damaged-checked-in-file" {
+			fmt.Println("C19: generation 2 skipped: generation 1 already deviates")
+			return
+		}
+	}
+	g1 := filepath.Join(s.Dir, "generation1.go")
+	cmd := exec.Command(s.Worker, "selfout", "-out", g1)
+	cmd.Dir = s.Dir
+	if out, err := cmd.CombinedOutput(); err != nil {
+		fatal2("generation 1 could not be produced: %v\n%s", err, out)
+	}
+	data, err := os.ReadFile(g1)
+	if err != nil {
+		fatal2("%v", err)
+	}
+	if err := os.WriteFile(filepath.Join(s.Repo, "internal/gontainer/gontainer.go"), data, 0644); err != nil {
+		fatal2("%v", err)
+	}
+	if err := prep.RebuildWorker(s); err != nil {
+		// the regenerated file does not compile into the tool: generation 2 cannot exist
+		v := &bsim.Violation{Property: "C19", Sig: "tool-does-not-rebuild-with-regenerated-file", Mode: "c19-build",
+			Detail: "the tool cannot be rebuilt with the regenerated internal/gontainer/gontainer.go:\n" + err.Error()}
+		m.violations = append(m.violations, v)
+		return
+	}
+	os.Setenv("VERIFSIM_C19_REF", g1)
+	defer os.Unsetenv("VERIFSIM_C19_REF")
+	n := spec.cases / 2
+	if n < 16 {
+		n = 16
+	}
+	oo := o
+	oo.seed = o.seed + 1
+	m2 := runWorkers(s, oo, n, spec.maxS/2)
+	mergeStats(m.stats, m2.stats)
+	m.stats.Probes["generation-2-runs"] += m2.stats.Builds
+	for d := range m2.distinct {
+		m.distinct["gen2|"+d] = true
+	}
+	m.violations = append(m.violations, m2.violations...)
 }
 
 // report writes replay files, confirms them in a fresh process, matches known findings,
@@ -212,7 +263,10 @@ func report(o opts, s *prep.Scratch, m *merged, t0 time.Time) int {
 			fatal2("writing replay: %v", err)
 		}
 		// replay in a fresh process: must reproduce, otherwise the machinery is at fault
-		outp, code := runReplay(s, path)
+		outp, code := "REPRODUCED (build failure, nothing to execute)", 1
+		if v.Mode != "c19-build" {
+			outp, code = runReplay(s, path)
+		}
 		if code != 1 || !strings.Contains(outp, "REPRODUCED") || strings.Contains(outp, "NOT-REPRODUCED") {
 			fatal2("violation %s (%s) did not reproduce from its replay file %s in a fresh process:\n%s", o.prop, sig, path, outp)
 		}
@@ -298,6 +352,8 @@ func replay(o opts, path string) int {
 	}
 	var v struct {
 		Property string `json:"property"`
+		Gen      int    `json:"gen"`
+		Mode     string `json:"mode"`
 	}
 	_ = json.Unmarshal(b, &v)
 	switch v.Property {
@@ -308,6 +364,21 @@ func replay(o opts, path string) int {
 	defer s.Cleanup()
 	if err != nil {
 		fatal2("%v", err)
+	}
+	os.Setenv("VERIFSIM_REPO", s.Pristine)
+	if v.Property == "C19" && (v.Gen == 2 || v.Mode == "c19-build") {
+		g1 := filepath.Join(s.Dir, "generation1.go")
+		cmd := exec.Command(s.Worker, "selfout", "-out", g1)
+		cmd.Dir = s.Dir
+		if out, err := cmd.CombinedOutput(); err != nil {
+			fatal2("generation 1 could not be produced: %v\n%s", err, out)
+		}
+		data, _ := os.ReadFile(g1)
+		_ = os.WriteFile(filepath.Join(s.Repo, "internal/gontainer/gontainer.go"), data, 0644)
+		if err := prep.RebuildWorker(s); err != nil {
+			fmt.Printf("REPRODUCED property=C19 sig=tool-does-not-rebuild-with-regenerated-file\n%v\nVIOLATION property=C19 replay=%s\n", err, path)
+			return 1
+		}
 	}
 	out, code := runReplay(s, path)
 	fmt.Print(out)
@@ -320,7 +391,10 @@ func replay(o opts, path string) int {
 var levelOf = map[string]string{"C08": "exploration", "C10": "fault_enumeration", "C12": "exploration", "C19": "exploration", "C05": "exploration", "C15": "exploration", "C20": "exploration"}
 
 var ruleText = map[string]string{
-	"C08": "one case = one generated world (configuration over 1-4 files, -i patterns, -o, flags, build version; valid, or with 1-3 injected defects incl. several of one class, or an environmental failure class) executed once as base and 7 times as twins that differ only in one declared-irrelevant dimension (2x map-iteration schedule, listing order, environment incl. every variable the base run was seen reading, cwd, clock/rand/pid/host, YAML key order); exit status, stdout and the -o file are compared. distinct = distinct (world class, file/pattern count, -o kind, flags, exit, #fs ops, #map sites with >=2 keys, stdout hash); all counted cases are non-trivial in that their base run reached at least the read-config step",
+	"C08": "one case = one generated world (configuration over 1-4 files, -i patterns, -o, flags, build version; valid, or with 1-3 injected defects incl. several of one class, or an environmental failure class) executed once as base and 7 times as twins that differ only in one declared-irrelevant dimension (2x map-iteration schedule, listing order, environment incl. every variable the base run was seen reading, cwd, clock/rand/pid/host, YAML key order); exit status, stdout and the -o file are compared. distinct = distinct (world class, file/pattern count, -o kind, flags, exit, #fs ops, #map sites with >=2 keys, stdout hash); every counted case is non-trivial in that its base run reached at least the read-config step",
+	"C10": "one case = one generated world (valid / each defect class / each environmental failure class x flag combinations x pre-existing, absent or odd -o) run fault-free (contract clauses + --quiet twin), then once per element of its COMPLETE single-fault space (every simulated FS operation of the fault-free run x every fault kind applicable to it; torn reads/writes at k in {0,1,len/2,len-1,drawn}; 5 content corruptions per successful open), then 6 seeded 2-3-fault plans. distinct = distinct (world class, file/pattern count, -o kind, flags, exit, #fs ops, stdout hash) of the fault-free run; non-trivial = the fault-free run performed at least one simulated FS operation",
+	"C12": "one case = one world from 10 input families (generic, node-kind-confusion storms in every schema position, content corruption on reads, byte-level mutation of rendered files, pathological names/globs/nesting, layered re-converging dependency graphs with <=4 elementary cycles, error faults on reads and writes) run once under the process monitors (no panic, no hang within the budget, exit status 0 or 1) and, where no error fault fired, the output-file contract. distinct as for C08",
+	"C19": "one case = the repository's own configuration (internal/gontainer/*.yaml, the Makefile's two -i patterns) regenerated under one drawn schedule: map-iteration seeds for every site in tree and runtime, listing order, environment noise, PATH with/without go, cwd, build info (version/commit/date/dirty), in place or to a fresh path, quiet or not; 1 in 8 with one input made unreadable. generation 1 must equal the checked-in file minus the version line; the tool is then rebuilt with the regenerated file and generation 2 must equal generation 1 over half as many schedules again. distinct = distinct (schedule seeds, env size, PATH, cwd, build info, flags); all cases non-trivial (each executes the full build)",
 }
 
 var assumptions = map[string][]string{
@@ -328,6 +402,19 @@ var assumptions = map[string][]string{
 		"terminal colouring is excluded: the harness has no tty",
 		"patterns and -o are relative paths in cwd twins, because the report legitimately echoes the strings it was given",
 		"a clean batch is evidence over the sampled worlds and schedules, not a proof"},
+	"C10": {"whether a configuration is valid is taken from the fault-free run of the same world, not judged here",
+		"stdout write failures are outside the property's enumerated failure causes and are not injected",
+		"an error fault on a write-path operation is not required to fail the run (a retry or fallback is legal); it is required that exit 0 implies the complete output and exit != 0 implies an untouched -o",
+		"a content corruption that hits one of several reads of the same file is judged on run-local clauses only",
+		"the single-fault space of each world is enumerated completely; worlds and multi-fault plans are sampled",
+		"files left behind elsewhere (temporary files) are counted as a probe, not judged: the property speaks about the -o path"},
+	"C12": {"the quantifier 'for all byte strings' is sampled along fault-shaped and schema-shaped mutations, not by coverage-guided fuzzing: a clean batch is weak evidence for that quantifier",
+		"hang = no result within the budget on a world whose files total <= 64 KiB and whose graph has <= 4 elementary cycles",
+		"with an error fault in play only the process-level monitors are judged (the file contract under faults is C10's)"},
+	"C19": {"generation 2 is skipped when generation 1 already deviates", "faulted regenerations inject unreadable inputs only (write-path faults are C10's subject)",
+		"the comparison ignores exactly the '// gontainer version:' line"},
 }
 
-var extraCoverage = map[string]map[string]any{}
+var extraCoverage = map[string]map[string]any{
+	"C10": {"exhaustive_subspace": "single-fault space per world (every FS operation x applicable fault kind) is enumerated completely; reported as exhaustive=false because worlds are sampled"},
+}
